@@ -144,6 +144,7 @@ class Evaluator:
         module=None,
     ):
         self.repo = repo
+        self.binop_hook = None  # optional callable(op, a, b) -> value | NO_MATCH
         self.opaque_arith = False  # if True, arithmetic on symbolic atoms yields an opaque geometry atom
         self.mod_stack: List[Any] = [module] if module is not None else []
         self._const_cache: Dict[Tuple[str, str], Any] = {}
@@ -552,6 +553,10 @@ class Evaluator:
         raise NotEvaluable(f"unary op on {type(v).__name__}")
 
     def _binop(self, op, a, b, node):
+        if self.binop_hook is not None:
+            res = self.binop_hook(op, a, b)
+            if res is not NO_MATCH:
+                return res
         if self.opaque_arith and (isinstance(a, (Sym, float)) or isinstance(b, (Sym, float))):
             return Sym("geom")
         if isinstance(a, bool) or isinstance(b, bool):
@@ -924,6 +929,16 @@ class Evaluator:
                 if meth == "sort" and not n.keywords and all(isinstance(x, (int, str)) for x in recv):
                     recv.sort()
                     return None
+            if isinstance(recv, str):
+                if meth == "split":
+                    return recv.split(*args)
+                if meth in ("startswith", "endswith") and all(isinstance(a, (str, tuple)) for a in args):
+                    return getattr(recv, meth)(*args)
+                if meth in ("lstrip", "rstrip", "strip", "lower", "upper", "capitalize"):
+                    return getattr(recv, meth)(*args)
+                if meth == "join":
+                    parts = self._iterate(args[0], n)
+                    return recv.join(str(x) for x in parts)
             if isinstance(recv, tuple) and meth == "index":
                 try:
                     return recv.index(args[0])
